@@ -46,6 +46,13 @@ def short(x, limit=60):
     return x
 
 
+ENCODING = ["utf-8"]      # the encoding of the index of the case being executed (one case at a time per process)
+
+
+def set_encoding(enc_name):
+    ENCODING[0] = enc_name or "utf-8"
+
+
 def B(x):
-    """the bytes an API argument stands for"""
-    return x.encode("utf-8") if isinstance(x, str) else bytes(x)
+    """the bytes an API argument stands for (text is encoded with the index's own encoding)"""
+    return x.encode(ENCODING[0]) if isinstance(x, str) else bytes(x)
